@@ -9,7 +9,7 @@ ID = "C13"
 LEVEL = "exploration"
 RULE = ("tables as in C12 (fixed and ranged widths, enum modifiers, break-by, repeated fields, hidden ':-1' "
         "columns, limits via fmt / argument / '*', 12% of the tables with 49-70 records - beyond the default "
-        "30:20 limits -, a field named like an SQL aggregate 'max(d)'), followed through their life: fresh -> printed -> re-formatted "
+        "30:20 limits -, a field named like an SQL aggregate 'max(d)'), followed through their life: fresh -> printed -> (a sibling table built from its format object on other records) -> re-formatted "
         "through the setter with a random new format -> printed again -> columns removed -> printed. At each point "
         "s = str(table.fmt) is (1) given to the PPTable constructor with the same records / fields / types / "
         "titles / header / footer, (2) assigned to the fmt setter of the same table; both renderings (no_color) "
@@ -71,7 +71,11 @@ def gen_case(rng):
     c0 = {'d_alias': d_alias}
     fmt, fmt2 = alias_fmt(c0, fmt), alias_fmt(c0, fmt2)
     remove = [d_alias if (f == 'd' and d_alias) else f for f in remove]
-    return dict(recs=recs, fmt=fmt, lim_arg=lim_arg, fmt2=fmt2, remove=remove, d_alias=d_alias,
+    sibling = T.gen_records(rng, (1, 3, 6)) if rng.random() < 0.4 else None
+    if sibling:
+        # cells of other lengths than in the first table
+        sibling = [tuple((v * 3 if isinstance(v, str) else v) for v in r) for r in sibling]
+    return dict(recs=recs, fmt=fmt, lim_arg=lim_arg, fmt2=fmt2, remove=remove, d_alias=d_alias, sibling=sibling,
                 header=rng.choice([None, "hdr"]), footer=rng.choice([None, "f", ""]),
                 titles={f: rng.choice(T.TITLES_POOL[f]) for f in T.FIELDS})
 
@@ -84,11 +88,38 @@ def judge(ctx, c, case):
         ctx.violation("table-raises", {"type": type(err).__name__, "msg": str(err)[:200]}, case)
         return
     printed = False
-    for stage in ('fresh', 'printed', 'reformatted', 'printed2', 'columns-removed', 'printed3'):
+    for stage in ('fresh', 'printed', 'sibling-from-fmt-obj', 'reformatted', 'printed2', 'columns-removed',
+                  'printed3'):
+        if stage == 'sibling-from-fmt-obj':
+            # another table is built from this table's format OBJECT (as ak.mcaller_sql does) on other
+            # records and printed; afterwards both tables must still match their own reported formats
+            if not c.get('sibling'):
+                continue
+            try:
+                names = field_names(c)
+                sib = PPTable(c['sibling'], fmt_obj=t.fmt, header=c['header'], footer=c['footer'])
+                sib_base = T.render(sib)
+                sib_fmt = str(sib.fmt)
+                sib2 = PPTable(c['sibling'], fields=names, fmt=sib_fmt, header=c['header'], footer=c['footer'],
+                               fields_types=T.mk_field_types(),
+                               fields_titles={n: c['titles'][f] for n, f in zip(names, T.FIELDS)})
+                sib_rebuilt = T.render(sib2)
+            except Exception as err:
+                ctx.violation("table-operation-raises", {"stage": stage, "type": type(err).__name__,
+                                                         "msg": str(err)[:200]}, case)
+                return
+            ctx.count("sibling_tables_from_format_object")
+            if sib_rebuilt != sib_base:
+                ctx.violation("constructor-with-reported-format-renders-differently",
+                              {"stage": stage, "fmt": sib_fmt, "table": sib_base[:300], "rebuilt": sib_rebuilt[:300]},
+                              case)
+                return
         try:
             if stage.startswith('printed'):
                 T.render(t)
                 printed = True
+            elif stage == 'sibling-from-fmt-obj':
+                pass
             elif stage == 'reformatted':
                 t.fmt = c['fmt2']
             elif stage == 'columns-removed':
@@ -176,4 +207,6 @@ def run_shard(ctx):
 def replay(ctx, case):
     case = dict(case)
     case['recs'] = [tuple(r) for r in case['recs']]
+    if case.get('sibling'):
+        case['sibling'] = [tuple(r) for r in case['sibling']]
     judge(ctx, case, case)
